@@ -36,7 +36,7 @@ namespace Rfsm.Interp
     (history pseudo-states); history states have no children, are never parents, and own exactly
     one transition whose targets are non-history proper descendants of the parent (children for
     shallow history); listed transitions exist and start at the listing state; a `<state>` with
-    children has an initial transition whose targets are non-history descendants. -/
+    children has an initial transition whose targets are descendants (history children included). -/
 def conformantB (d : Doc) : Bool :=
   let n := d.states.length
   let valid := fun (x : Nat) => decide (0 < x) && decide (x ≤ n)
@@ -63,8 +63,7 @@ def conformantB (d : Doc) : Bool :=
       && (if isCompoundState d s || (s == d.root && !st.kids.isEmpty) then
             st.initial != 0 && d.transitions.any (·.id == st.initial)
             && !(getTrans d st.initial).target.isEmpty
-            && (getTrans d st.initial).target.all (fun t => valid t && (getState d t).histType == 0
-                  && isDescendant d t s)
+            && (getTrans d st.initial).target.all (fun t => valid t && isDescendant d t s)
           else true))
 
 end Rfsm.Interp
